@@ -1,0 +1,215 @@
+// Copyright 2024 Kelvin Clement Mwinuka
+//
+// Licensed under the Apache License, Version 2.0 (the "License");
+// you may not use this file except in compliance with the License.
+// You may obtain a copy of the License at
+//
+//      http://www.apache.org/licenses/LICENSE-2.0
+//
+// Unless required by applicable law or agreed to in writing, software
+// distributed under the License is distributed on an "AS IS" BASIS,
+// WITHOUT WARRANTIES OR CONDITIONS OF ANY KIND, either express or implied.
+// See the License for the specific language governing permissions and
+// limitations under the License.
+
+package internal
+
+import (
+	"encoding/json"
+	"fmt"
+	"sync"
+	"time"
+)
+
+// KeyData is written to snapshots and to the AOF preamble as JSON. A plain JSON encoding of the Value
+// field loses the type of the value (integers come back as floats, lists as []interface{}, sets and
+// sorted sets as empty objects), so the value is written together with the name of its type and read
+// back into the same Go type.
+
+// JSONCompositeType is implemented by the non-primitive value types (sets, sorted sets, ...) that
+// can be stored under a key. TypeName identifies the type in the encoded form, and a decoder for
+// that name must be registered with RegisterJSONCompositeType.
+type JSONCompositeType interface {
+	json.Marshaler
+	TypeName() string
+}
+
+var (
+	compositeDecodersMut sync.RWMutex
+	compositeDecoders    = make(map[string]func(data []byte) (interface{}, error))
+)
+
+// RegisterJSONCompositeType registers the function that decodes values of the named composite type.
+func RegisterJSONCompositeType(name string, decode func(data []byte) (interface{}, error)) {
+	compositeDecodersMut.Lock()
+	defer compositeDecodersMut.Unlock()
+	compositeDecoders[name] = decode
+}
+
+// BytesString is a string that is encoded byte for byte. JSON strings have to be valid UTF-8 (invalid
+// sequences are replaced when encoding), but keys hold arbitrary bytes, so such strings are written in
+// the base64 form that encoding/json uses for []byte.
+type BytesString string
+
+func (b BytesString) MarshalJSON() ([]byte, error) {
+	return json.Marshal([]byte(b))
+}
+
+func (b *BytesString) UnmarshalJSON(data []byte) error {
+	var raw []byte
+	if err := json.Unmarshal(data, &raw); err != nil {
+		return err
+	}
+	*b = BytesString(raw)
+	return nil
+}
+
+type keyDataJSON struct {
+	Type     string          `json:"Type"`
+	Value    json.RawMessage `json:"Value"`
+	ExpireAt time.Time       `json:"ExpireAt"`
+}
+
+// hashFieldJSON is the encoded form of one hash field and its value, which can be a string, an int or a float.
+type hashFieldJSON struct {
+	Field BytesString     `json:"Field"`
+	Type  string          `json:"Type"`
+	Value json.RawMessage `json:"Value"`
+}
+
+func encodeScalar(value interface{}) (string, []byte, error) {
+	var typ string
+	switch value.(type) {
+	case nil:
+		typ = "nil"
+	case string:
+		typ = "string"
+	case int:
+		typ = "int"
+	case int64:
+		typ = "int64"
+	case float64:
+		typ = "float"
+	default:
+		return "", nil, fmt.Errorf("type %T is not a scalar", value)
+	}
+	if str, ok := value.(string); ok {
+		b, err := json.Marshal(BytesString(str))
+		return typ, b, err
+	}
+	b, err := json.Marshal(value)
+	return typ, b, err
+}
+
+func decodeScalar(typ string, data []byte) (interface{}, error) {
+	switch typ {
+	case "nil":
+		return nil, nil
+	case "string":
+		var v BytesString
+		err := json.Unmarshal(data, &v)
+		return string(v), err
+	case "int":
+		var v int
+		err := json.Unmarshal(data, &v)
+		return v, err
+	case "int64":
+		var v int64
+		err := json.Unmarshal(data, &v)
+		return v, err
+	case "float":
+		var v float64
+		err := json.Unmarshal(data, &v)
+		return v, err
+	}
+	return nil, fmt.Errorf("unknown scalar type %s", typ)
+}
+
+func (k KeyData) MarshalJSON() ([]byte, error) {
+	out := keyDataJSON{ExpireAt: k.ExpireAt}
+	var err error
+	switch v := k.Value.(type) {
+	case nil, string, int, int64, float64:
+		out.Type, out.Value, err = encodeScalar(v)
+	case []string:
+		out.Type = "list"
+		elements := make([]BytesString, len(v))
+		for i, element := range v {
+			elements[i] = BytesString(element)
+		}
+		out.Value, err = json.Marshal(elements)
+	case map[string]interface{}:
+		out.Type = "hash"
+		fields := make([]hashFieldJSON, 0, len(v))
+		for field, value := range v {
+			typ, b, ferr := encodeScalar(value)
+			if ferr != nil {
+				return nil, ferr
+			}
+			fields = append(fields, hashFieldJSON{Field: BytesString(field), Type: typ, Value: b})
+		}
+		out.Value, err = json.Marshal(fields)
+	case JSONCompositeType:
+		out.Type = v.TypeName()
+		out.Value, err = v.MarshalJSON()
+	default:
+		return nil, fmt.Errorf("type %T cannot be encoded", k.Value)
+	}
+	if err != nil {
+		return nil, err
+	}
+	return json.Marshal(out)
+}
+
+func (k *KeyData) UnmarshalJSON(data []byte) error {
+	var in keyDataJSON
+	if err := json.Unmarshal(data, &in); err != nil {
+		return err
+	}
+	k.ExpireAt = in.ExpireAt
+	switch in.Type {
+	case "nil", "string", "int", "int64", "float":
+		value, err := decodeScalar(in.Type, in.Value)
+		if err != nil {
+			return err
+		}
+		k.Value = value
+	case "list":
+		elements := []BytesString{}
+		if err := json.Unmarshal(in.Value, &elements); err != nil {
+			return err
+		}
+		list := make([]string, len(elements))
+		for i, element := range elements {
+			list[i] = string(element)
+		}
+		k.Value = list
+	case "hash":
+		var fields []hashFieldJSON
+		if err := json.Unmarshal(in.Value, &fields); err != nil {
+			return err
+		}
+		hash := make(map[string]interface{}, len(fields))
+		for _, encoded := range fields {
+			value, err := decodeScalar(encoded.Type, encoded.Value)
+			if err != nil {
+				return err
+			}
+			hash[string(encoded.Field)] = value
+		}
+		k.Value = hash
+	default:
+		compositeDecodersMut.RLock()
+		decode, ok := compositeDecoders[in.Type]
+		compositeDecodersMut.RUnlock()
+		if !ok {
+			return fmt.Errorf("no decoder registered for value type %q", in.Type)
+		}
+		value, err := decode(in.Value)
+		if err != nil {
+			return err
+		}
+		k.Value = value
+	}
+	return nil
+}
